@@ -226,7 +226,11 @@ class G:
         return {'t': 'lt', 'k': k, 'a': self.arg(2), 'b': self.arg(2)}
 
     def c_foreign(self):
-        return {'t': 'foreign', 'lang': self.rng.choice(LANG_NAMES), 'body': self.arg(self.rng.randint(1, 5))}
+        body = self.arg(self.rng.randint(1, 5))
+        if self.rng.random() < 0.2:
+            # the argument ends with a macro that looks for a further (optional or missing) argument behind the closing brace
+            body['items'].append({'t': 'rawword', 'w': self.rng.choice(['\\footnotemark', '\\mbox', '\\textbf', '\\linebreak', '\\footnotemark '])})
+        return {'t': 'foreign', 'lang': self.rng.choice(LANG_NAMES), 'body': body}
 
     def c_hspace(self):
         return {'t': 'hspace', 'name': self.rng.choice(['\\hspace', '\\hspace*', '\\vspace', '\\vspace*']),
@@ -270,6 +274,8 @@ class G:
                 if rng.random() < 0.2:
                     sec += ' \\text{' + self.names.word() + '} ' + self.math_body(1)
                 secs.append(sec)
+            if len(secs) > 1 and rng.random() < 0.15:
+                secs[0] = ''            # an empty first alignment section:  & = b
             rows.append(secs)
         return {'t': 'display', 'env': env, 'rows': rows, 'punct': rng.choice(['', '.', ',', ';']),
                 'label': self.names.word() if rng.random() < 0.3 else None,
